@@ -54,7 +54,13 @@ func cmdSeq(args []string) {
 	var progs []Program
 	switch *family {
 	case "kv":
-		progs = RandomKVPrograms(*seed, *n, *length)
+		progs = RandomKVPrograms(*seed, *n, *length, KVProfile{})
+	case "kv-canon":
+		progs = RandomKVPrograms(*seed, *n, *length, KVProfile{Canonical: true})
+	case "expiry":
+		progs = RandomKVPrograms(*seed, *n, *length, KVProfile{Canonical: true, Sample: 9, TickHeavy: true, ExpiryMix: true})
+	case "multidb":
+		progs = RandomKVPrograms(*seed, *n, *length, KVProfile{Canonical: true, Select: 5, Sample: 25, Dbs: []int{0, 1, 10}})
 	case "hash":
 		progs = RandomHashPrograms(*seed, *n, *length)
 	case "list":
@@ -78,6 +84,9 @@ func cmdSeq(args []string) {
 	}
 	if err := tr.Close(); err != nil {
 		die(2, "%v", err)
+	}
+	if HangDump != "" {
+		_ = os.WriteFile(*out+".hang.txt", []byte(HangDump), 0o644)
 	}
 	if *statsPath != "" {
 		writeJSON(*statsPath, map[string]any{
